@@ -2,6 +2,8 @@ package c08
 
 import (
 	"encoding/json"
+	"os"
+	"path/filepath"
 	"strconv"
 
 	"verifharness/internal/core"
@@ -307,9 +309,9 @@ func exhaustive() []json.RawMessage {
 }
 
 func (prop) Generate(r *core.RNG, tier string) []json.RawMessage {
-	nHist, nSum := 60, 300
+	nHist, nSum := 100, 300
 	if tier == "thorough" {
-		nHist, nSum = 900, 6000
+		nHist, nSum = 600, 3000
 	}
 	out := fixedCases()
 	g := &hgen{r: r}
@@ -333,8 +335,26 @@ func (prop) Generate(r *core.RNG, tier string) []json.RawMessage {
 }
 
 func (prop) Extra(r *core.RNG, tier string, scratch string) ([]string, []string, map[string]any) {
-	return nil, nil, map[string]any{"exhaustive": tier == "thorough",
+	stats := map[string]any{"exhaustive": tier == "thorough",
 		"exhaustive_scope": "thorough: every history of length <= 4 that ends in a run, over 2 packages and the alphabet {edit a, edit b, delete gengo.sum, drop its first line, run All, run All+Force, run All failing in b, run All on entrypoint a only, run without All}"}
+	// The deliberate NON-claim (DESIGN.md, C08): cache transparency.  The recorded hash is the one of the state a run
+	// STARTED from, so putting that state back (sources + an older generated file) is trusted.  Shown, not judged.
+	run := opIn{K: "run", All: true}
+	in := input{Mod: "example.com/m", Pkgs: []pkgDecl{{Dir: "a"}},
+		Ops: []opIn{run, run, run, {K: "set", P: 0, File: genFile, V: 3}, run, {K: "restoregen", P: 0}, run}}
+	raw, _ := json.Marshal(in)
+	res := prop{}.Run(raw, filepath.Join(scratch, "extra-transparency"))
+	_ = os.RemoveAll(filepath.Join(scratch, "extra-transparency"))
+	var notes []string
+	if ob, ok := res.Observed.(*observed); ok && ob.Fatal == "" && len(ob.Steps) == len(in.Ops) {
+		last := ob.Steps[len(ob.Steps)-1]
+		if last.Run != nil && len(last.Run.Executed) == 0 {
+			notes = append(notes, "cache transparency is NOT claimed and does not hold (by design of the recorded value): run x3; hand-edit a/zz_generated.rec.go; run (regenerates, records the hash of the hand-edited state); put the hand-edited file back; run -> package a is skipped and the stale file stays. C08 only says: skipped => recorded hash = hash of the directory at load time.")
+		} else if last.Run != nil {
+			notes = append(notes, "cache transparency scenario: the implementation regenerated the package after an earlier generated file was put back (stronger than C08 demands)")
+		}
+	}
+	return nil, notes, stats
 }
 
 // Shrink: drop one step; drop the tail; plainer runs; fewer packages.
